@@ -126,6 +126,8 @@ pub fn generate(tier: &str, rng: &mut Rng) -> Vec<String> {
         "e2e E STS dcc",
         "e2e L SXS cdcc",
         "e2e E SXTFS dcccc",
+        "e2e E SS cgc",
+        "e2e L SFS cgccgc",
         "e2n L XS cc",
         "e2n E X c",
         "e2n E SFXS dccc",
@@ -234,6 +236,24 @@ pub fn generate(tier: &str, rng: &mut Rng) -> Vec<String> {
             }
         }
     }
+    // peer drops the connection abruptly (`d`) or by a graceful shutdown (`g`)
+    let ops_max = if thorough { 7 } else { 5 };
+    for m in modes {
+        for ops in all_strings_upto(&['c', 'd', 'g'], ops_max) {
+            if !ops.contains('g') {
+                continue;
+            }
+            let calls = ops.matches('c').count();
+            let attempts = calls + if m == "E" { 1 } else { 0 };
+            // all-succeed, all-fail-after-first and alternating outcome lists
+            let all_s: String = "S".repeat(attempts);
+            let alt: String = (0..attempts).map(|i| if i % 2 == 0 { 'S' } else { 'F' }).collect();
+            let first: String = (0..attempts).map(|i| if i == 0 { 'S' } else { 'F' }).collect();
+            for outs in [all_s, alt, first] {
+                out.push(format!("e2e {} {} {}", m, tok(&outs), tok(&ops)));
+            }
+        }
+    }
     // the code path without a connect timeout (no TimeoutConnector around the connector);
     // `T` (an attempt that never ends) is excluded: nothing would ever end it
     let ops_max = if thorough { 7 } else { 5 };
@@ -254,8 +274,8 @@ pub fn generate(tier: &str, rng: &mut Rng) -> Vec<String> {
         let m = *rng.pick(&modes);
         let olen = rng.range(1, if thorough { 16 } else { 10 }) as usize;
         let ops = match rng.below(3) {
-            0 => rand_string(rng, &[('c', 3), ('d', 2)], olen),
-            1 => rand_string(rng, &[('c', 1), ('d', 1)], olen),
+            0 => rand_string(rng, &[('c', 3), ('d', 1), ('g', 1)], olen),
+            1 => rand_string(rng, &[('c', 2), ('d', 1), ('g', 1)], olen),
             _ => rand_string(rng, &[('c', 5), ('d', 1)], olen),
         };
         let alen = rng.range(0, olen as u64 + 1) as usize;
@@ -606,6 +626,8 @@ struct World {
     attempts: usize,
     /// cable tasks of connections handed out, by attempt id
     cables: Vec<(usize, tokio::task::JoinHandle<()>)>,
+    /// graceful-shutdown triggers of the servers behind those connections
+    shutdowns: Vec<tokio::sync::oneshot::Sender<()>>,
 }
 
 #[derive(Clone)]
@@ -635,12 +657,20 @@ impl Service<http::Uri> for ScriptConnector {
                     let (client_io, mut cable_a) = tokio::io::duplex(16 * 1024);
                     let (mut cable_b, server_io) = tokio::io::duplex(16 * 1024);
                     // the peer: a real tonic server serving exactly this connection
+                    let (stop_tx, stop_rx) = tokio::sync::oneshot::channel::<()>();
                     tokio::spawn(async move {
+                        use tokio_stream::StreamExt;
+                        // one connection, then nothing more (the listener stays open)
+                        let incoming = tokio_stream::once(Ok::<_, std::io::Error>(server_io))
+                            .chain(tokio_stream::pending());
                         let _ = tonic::transport::Server::builder()
                             .add_service(WhoAmI { id })
-                            .serve_with_incoming(tokio_stream::once(Ok::<_, std::io::Error>(server_io)))
+                            .serve_with_incoming_shutdown(incoming, async move {
+                                let _ = stop_rx.await;
+                            })
                             .await;
                     });
+                    world.lock().unwrap().shutdowns.push(stop_tx);
                     let cable = tokio::spawn(async move {
                         let _ = tokio::io::copy_bidirectional(&mut cable_a, &mut cable_b).await;
                     });
@@ -688,6 +718,7 @@ fn run_e2e(lazy: bool, outcomes: &str, ops: &str, with_timeout: bool) -> String 
             outcomes: outcomes.chars().filter(|c| *c != '-').collect(),
             attempts: 0,
             cables: Vec::new(),
+            shutdowns: Vec::new(),
         }));
         let connector = ScriptConnector(world.clone());
         let endpoint = tonic::transport::Endpoint::from_static("http://verif.invalid:50051");
@@ -728,6 +759,15 @@ fn run_e2e(lazy: bool, outcomes: &str, ops: &str, with_timeout: bool) -> String 
         let mut client = tonic::client::Grpc::new(channel);
         for op in ops.chars().filter(|c| *c != '-') {
             match op {
+                'g' => {
+                    // the peer shuts down gracefully (GOAWAY, then closes): same fault, polite form
+                    let stops: Vec<_> = world.lock().unwrap().shutdowns.drain(..).collect();
+                    for s in stops {
+                        let _ = s.send(());
+                    }
+                    tokio::time::sleep(QUIESCE).await;
+                    out.push("d".into());
+                }
                 'd' => {
                     // the peer drops every established connection
                     let cables: Vec<_> = world.lock().unwrap().cables.drain(..).collect();
